@@ -42,7 +42,7 @@ KINDS = {
 }
 
 
-def _mk(kind, seq, symbolic):
+def _mk(kind, seq, symbolic, as_int=False):
     from pDESy.model.base_task import BaseTask, BaseTaskState
     from pDESy.model.base_component import BaseComponent, BaseComponentState
     from pDESy.model.base_worker import BaseWorker, BaseWorkerState
@@ -57,7 +57,9 @@ def _mk(kind, seq, symbolic):
     o = cls("x", ID="x")
     # symbolic run: entries stay solver variables (IntEnum members compare equal to ints);
     # replay: real enum members
-    o.state_record_list = list(seq) if symbolic else [enum(int(s)) for s in seq]
+    # symbolic run: entries stay solver variables (IntEnum members compare equal to ints);
+    # replay: real enum members, or plain ints (as_int) - a log may hold either, equality is what the property is about
+    o.state_record_list = list(seq) if symbolic else ([int(s) for s in seq] if as_int else [enum(int(s)) for s in seq])
     return o
 
 
@@ -139,7 +141,7 @@ def extract(p, ctx):
     seqs = []
     for oi, ln in enumerate(lens):
         seq = [p["o%d_%d" % (oi, i)] for i in range(ln)]
-        o = _mk(kind, seq, ctx.symbolic)
+        o = _mk(kind, seq, ctx.symbolic, as_int=(oi % 2 == 0))
         o.ID = o.name = "x%d" % oi
         objs.append(o)
         seqs.append(seq)
